@@ -113,35 +113,14 @@ func Execute(t *testing.T, job *Job) (res Result) {
 		return res
 	}
 	bubble := func(r *Run) {
-		defer simsync.Install(nil)
-		defer func() {
-			if e := recover(); e != nil {
-				msg := fmt.Sprint(e)
-				if strings.Contains(msg, "deadlock: main bubble goroutine has exited") {
-					return
-				}
-				if r.Trouble == nil {
-					r.Trouble = &Trouble{Msg: "panic outside bubble main: " + msg}
-				}
-			}
+		// in its own goroutine: when the race detector (race pass) has reported anything during the bubble, package
+		// testing fails the bubble's test and synctest.Test ends the calling goroutine with FailNow
+		done := make(chan struct{})
+		go func() {
+			defer close(done)
+			bubbleBody(t, r, scen, job)
 		}()
-		synctest.Test(t, func(t *testing.T) {
-			r.T0 = time.Now()
-			r.Sched = simsync.NewScheduler()
-			simsync.Install(r.Sched)
-			defer r.Sched.Stop()
-			defer func() {
-				if e := recover(); e != nil {
-					if _, ok := e.(failSentinel); ok {
-						return
-					}
-					if r.Trouble == nil {
-						r.Trouble = &Trouble{Msg: fmt.Sprintf("harness panic: %v\n%s", e, debug.Stack())}
-					}
-				}
-			}()
-			scen(r, job)
-		})
+		<-done
 	}
 	bubble(r)
 	if r.WantSecond && r.Viol == nil && r.Trouble == nil {
@@ -370,4 +349,36 @@ func raceVerdict(res *Result, files []string) {
 			res.Log = append(res.Log, "DATA RACE"+rep, fmt.Sprintf("VIOLATION %s: %s", res.Viol.Rule, res.Viol.Msg))
 		}
 	}
+}
+
+func bubbleBody(t *testing.T, r *Run, scen Scenario, job *Job) {
+	defer simsync.Install(nil)
+	defer func() {
+		if e := recover(); e != nil {
+			msg := fmt.Sprint(e)
+			if strings.Contains(msg, "deadlock: main bubble goroutine has exited") {
+				return
+			}
+			if r.Trouble == nil {
+				r.Trouble = &Trouble{Msg: "panic outside bubble main: " + msg}
+			}
+		}
+	}()
+	synctest.Test(t, func(t *testing.T) {
+		r.T0 = time.Now()
+		r.Sched = simsync.NewScheduler()
+		simsync.Install(r.Sched)
+		defer r.Sched.Stop()
+		defer func() {
+			if e := recover(); e != nil {
+				if _, ok := e.(failSentinel); ok {
+					return
+				}
+				if r.Trouble == nil {
+					r.Trouble = &Trouble{Msg: fmt.Sprintf("harness panic: %v\n%s", e, debug.Stack())}
+				}
+			}
+		}()
+		scen(r, job)
+	})
 }
